@@ -205,6 +205,9 @@ pub enum FnModel {
     NeedsTuple,
     /// fails with FunctionIdentifierNotFound(<that other name>), as a function does that evaluates something itself
     FailNotFound(&'static str),
+    /// evaluates `<its own name>(5)` through a string entry point in a context of its own, where that name is bound to
+    /// a marker function (builtins enabled), and returns what that gives: ("user:<name>", 5)
+    SameNameInner,
     /// Int k in 0..=80: evaluates `deep(k - 1) + 1` through a string entry point in a context of its own (k nested
     /// evaluations on one thread) and so returns k; anything else: CustomMessage
     Deep,
@@ -251,6 +254,18 @@ pub fn apply_fn_model(name: &str, m: &FnModel, arg: &Value) -> Result<Value, Eva
             other => Err(EvalexprError::expected_tuple(other.clone())),
         },
         FnModel::FailNotFound(inner) => Err(EvalexprError::FunctionIdentifierNotFound(inner.to_string())),
+        FnModel::SameNameInner => {
+            let mut c = HashMapContext::<DefaultNumericTypes>::new();
+            let n = name.to_string();
+            c.set_function(name.to_string(), Function::new(move |v: &Value| apply_fn_model(&n, &FnModel::Marker, v)))
+                .expect("HashMapContext::set_function cannot fail");
+            let prev_eval = evalexpr::verif::set_eval_sink(None);
+            let prev_parse = evalexpr::verif::set_parser_sink(None);
+            let r = evalexpr::eval_with_context(&format!("{}(5)", name), &c);
+            evalexpr::verif::set_eval_sink(prev_eval);
+            evalexpr::verif::set_parser_sink(prev_parse);
+            r
+        },
         FnModel::Deep => match arg {
             Value::Int(0) => Ok(Value::Int(0)),
             Value::Int(k) if (1..=80).contains(k) => {
@@ -267,6 +282,29 @@ pub fn apply_fn_model(name: &str, m: &FnModel, arg: &Value) -> Result<Value, Eva
             _ => Err(EvalexprError::CustomMessage("deep: not an int in 0..=80".to_string())),
         },
     }
+}
+
+/// State owned by value by a user function; cloning the function (with its context) clones the state.
+#[derive(Default)]
+pub struct Counter(pub std::sync::atomic::AtomicI64);
+
+impl Clone for Counter {
+    fn clone(&self) -> Self {
+        Counter(std::sync::atomic::AtomicI64::new(self.0.load(std::sync::atomic::Ordering::SeqCst)))
+    }
+}
+
+/// Registers `name` as a function that returns 1, 2, 3, … on successive calls (per context: clones count on their own).
+pub fn register_counter(ctx: &mut HashMapContext<DefaultNumericTypes>, name: &str) {
+    let counter = Counter::default();
+    ctx.set_function(
+        name.to_string(),
+        Function::new(move |_| {
+            let whole: &Counter = &counter;
+            Ok(Value::Int(whole.0.fetch_add(1, std::sync::atomic::Ordering::SeqCst) + 1))
+        }),
+    )
+    .expect("HashMapContext::set_function cannot fail");
 }
 
 /// Registers a recording user function `name` with behaviour `m` in `ctx`; every call is appended to `log`.
